@@ -108,7 +108,7 @@ def render(ast: dict, spec: dict) -> tuple[str, list[str]]:
     rs = surface.Respell(random.Random(spec["rs"]), spec["dims"]) if spec["dims"] else None
     pr = surface.Printer(respell=rs)
     pr.program(ast)
-    text, _ = surface.layout(pr.toks, random.Random(spec["ls"]), spec["style"])
+    text, _ = surface.layout(pr.toks, random.Random(spec["ls"]), spec["style"], rich=True)
     return text, [t.text for t in pr.toks]
 
 
@@ -331,6 +331,11 @@ def run(run: core.Run) -> int:
     if not prep["proofs_ok"] or not aud["ok"] or not prep["driver_ok"]:
         run.broken_tie("Lean obligations of C16 do not check (build/audit/table tie)",
                        {"theorems": THEOREMS, "log": prep["log"][-3000:], "audit": {k_: v for k_, v in aud.items() if k_ != "theorems"}})
+    if not quick and prep["proofs_ok"]:
+        ok, out = core.leanchecker(MODULES)
+        stats["leanchecker"] = 1 if ok else 0
+        if not ok:
+            run.broken_tie("leanchecker rejects the C16 modules", {"log": out})
     dims_used: Counter = Counter()
     for p in progs:
         for sp in p["specs"]:
@@ -351,7 +356,12 @@ def run(run: core.Run) -> int:
         "the ANTLR parser and the compiler's tree visitors are NOT modelled: parser-level invariance rests on the metamorphic oracle (exploration)",
         "harness printer harness/gen/surface.py (token lists, Respell) — its separator table is proved sound (needs_sep_sound) and compared with the Lean copy",
     ]
-    return run.finish("proof", cov, [
+    cov["explanation"] = (
+        "hybrid: (1) PROOF, all inputs - the listed Lean theorems about the lexer model and the literal readers (obligations/discharged/axioms above); "
+        "(2) DIFFERENTIAL tie of that model with the generated ANTLR lexer on every rendered text, corrupted renderings and random strings (lexer_tie, token_checks); "
+        "(3) EXPLORATION - the parser/compiler step is not modelled: k renderings of each generated program are compiled by the real compiler and compared field by field "
+        "(programs, renderings_per_program, outcomes, disagreements)")
+    return run.finish("other", cov, [
         "proof covers the lexer model and the literal readers (all inputs); the step from equal token sequences / literal values to equal ops is only tested (real compiler, generated programs)",
         "ANTLR's lexer semantics (longest match, first rule wins ties, non-greedy sub-rules stop at the first end) is modelled by hand and tied differentially",
         "string re-spellings stay inside the C04 guards (no backslashes, no line separators other than \\n in triple-quoted forms)",
